@@ -13,6 +13,7 @@ from __future__ import annotations
 
 import json
 import random
+import re
 import subprocess
 import sys
 import threading
@@ -36,6 +37,8 @@ DOCS = [
     "| a | b |\n|---|---|\n| 1 | 2 |\n",
     "---\ntitle: x\n---\nbody text\n",
     "plain " * 40 + "\n",
+    "```python\nprint(1)\n```\n\ntext\n\n~~~~text\nplain\n~~~~\n",
+    "~~~sh\n$ ls\n~~~\n\nafter\n\n````md\n```\ninner\n```\n````\n",
     "",
 ]
 
@@ -138,7 +141,13 @@ def schedules(ctx: Ctx, jobs, solo, rounds: int, threads: int) -> None:
     rng = ctx.rng
     old = sys.getswitchinterval()
     for r in range(rounds):
-        picks = [[rng.randrange(len(jobs)) for _ in range(rng.randint(2, 5))] for _ in range(threads)]
+        pool = range(len(jobs))
+        if r % 3 == 1:
+            # rounds in which every thread parses fenced code, tables or footnotes at the same time (state handed from one
+            # parser callback to the next is the narrowest window)
+            special = [i for i in pool if re.search(r"```|~~~|^\|.*\|$|\[\^", jobs[i][0], re.M)]
+            pool = special or pool
+        picks = [[rng.choice(pool) for _ in range(rng.randint(2, 5))] for _ in range(threads)]
         results: list[list] = [[] for _ in range(threads)]
         errors: list = []
         barrier = threading.Barrier(threads)
@@ -151,7 +160,7 @@ def schedules(ctx: Ctx, jobs, solo, rounds: int, threads: int) -> None:
             except Exception as e:            # noqa: BLE001
                 errors.append(repr(e))
         sys.setswitchinterval(1e-6)
-        threading.settrace(Yielder(rng.randrange(1 << 30), 0.02))
+        threading.settrace(Yielder(rng.randrange(1 << 30), (0.02, 0.3, 0.1)[r % 3]))
         ths = [threading.Thread(target=work, args=(t,)) for t in range(threads)]
         try:
             for th in ths:
@@ -195,6 +204,68 @@ def api_histories(ctx: Ctx, n: int) -> None:
         if got != alone[d]:
             ctx.fail("HISTORY (fill_markdown / fill_text defaults): result depends on earlier calls", {"sequence": seq}, {"alone": str(alone[d])[:500], "after": str(got)[:500]})
             return
+    # the same text wrapped with different length functions, in both orders (a memo keyed too coarsely shows here)
+    from flowmark.linewrapping.line_wrappers import line_wrap_to_width, line_wrap_by_sentence
+    from flowmark.linewrapping.text_wrapping import wrap_paragraph_lines
+
+    def wide(s: str) -> int:
+        return sum(2 if ord(c) > 0x2E80 else 1 for c in s)
+    texts = ["漢字 かな 文字 " * 6 + "latin words here", "word " * 30, "ａｂｃ ｄｅｆ " * 8]
+    for t in texts:
+        for W in (20, 40):
+            ref_len = wrap_paragraph_lines(t, W)
+            ref_wide = wrap_paragraph_lines(t, W, len_fn=wide)
+            for order in (("len", "wide", "len"), ("wide", "len", "wide")):
+                got = {}
+                for which in order:
+                    got[which] = wrap_paragraph_lines(t, W) if which == "len" else wrap_paragraph_lines(t, W, len_fn=wide)
+                    md = fill_markdown(t + "\n", line_wrapper=line_wrap_to_width(width=W, len_fn=(len if which == "len" else wide), is_markdown=True))
+                    got["md-" + which] = md
+                    got["ft-" + which] = fill_text(t, width=W, len_fn=(len if which == "len" else wide))
+                ctx.count(["len_fn", t, W, order], nontrivial=True)
+                ctx.bump("len-fn-histories")
+                if got["len"] != ref_len or got["wide"] != ref_wide:
+                    ctx.fail("HISTORY (length function): wrapping a text depends on an earlier call with another length function",
+                             {"text": t, "width": W, "order": order}, {"alone": [ref_len, ref_wide], "after": [got["len"], got["wide"]]})
+                    return
+    # the same in two fresh interpreters, one per order: what each call returns must not depend on which came first
+    code = ("import sys, json\nfrom flowmark.linewrapping.text_wrapping import wrap_paragraph_lines\nfrom flowmark import fill_text\n"
+            "def wide(s):\n    return sum(2 if ord(c) > 0x2E80 else 1 for c in s)\n"
+            "order, texts = json.loads(sys.stdin.read())\nout = {}\n"
+            "for which in order:\n"
+            "    for t in texts:\n"
+            "        for W in (20, 40):\n"
+            "            fn = len if which == 'len' else wide\n"
+            "            out[f'{which}|{W}|{t}'] = [wrap_paragraph_lines(t, W, len_fn=fn), fill_text(t, width=W, len_fn=fn)]\n"
+            "print(json.dumps(out))\n")
+    res = []
+    for order in (["len", "wide"], ["wide", "len"]):
+        r = subprocess.run([sys.executable, "-c", code], input=json.dumps([order, texts]), capture_output=True, text=True)
+        res.append(json.loads(r.stdout) if r.returncode == 0 else {"error": r.stderr[-300:]})
+    ctx.count(["len_fn-fresh"], nontrivial=True)
+    ctx.bump("len-fn-fresh-interpreters")
+    if res[0] != res[1]:
+        k = next((k for k in res[0] if res[0].get(k) != res[1].get(k)), "error")
+        ctx.fail("HISTORY (length function): what a wrapping call returns depends on whether a call with another length function came first",
+                 {"call": k, "orders": [["len", "wide"], ["wide", "len"]]}, {"len-first": res[0].get(k), "wide-first": res[1].get(k)})
+        return
+    md_ref = {}
+    for t in texts:
+        for which, fn in (("len", len), ("wide", wide)):
+            a = fill_markdown(t + "\n", line_wrapper=line_wrap_to_width(width=24, len_fn=fn, is_markdown=True))
+            b = fill_markdown(t + "\n", line_wrapper=line_wrap_by_sentence(width=24, len_fn=fn, is_markdown=True))
+            key = (t, which)
+            if key in md_ref and md_ref[key] != (a, b):
+                ctx.fail("HISTORY (length function): fill_markdown with the same wrapper arguments gives two results in one process", {"text": t, "len_fn": which}, None)
+                return
+            md_ref[key] = (a, b)
+        for which, fn in (("wide", wide), ("len", len)):
+            a = fill_markdown(t + "\n", line_wrapper=line_wrap_to_width(width=24, len_fn=fn, is_markdown=True))
+            b = fill_markdown(t + "\n", line_wrapper=line_wrap_by_sentence(width=24, len_fn=fn, is_markdown=True))
+            if md_ref[(t, which)] != (a, b):
+                ctx.fail("HISTORY (length function): fill_markdown with a custom length function depends on earlier calls with another one",
+                         {"text": t, "len_fn": which}, {"first": md_ref[(t, which)][0], "later": a})
+                return
     # one Markdown object used twice must not carry anything over either (link definitions, footnotes)
     for a, b in [(DOCS[0], DOCS[1]), (DOCS[2], DOCS[3]), (DOCS[4], DOCS[6])]:
         m = flowmark_markdown()
